@@ -785,7 +785,7 @@ func (w *World) forallHyps(env *Env, n *SForall) []string {
 		c.bound[name] = true
 		binders = append(binders, "("+name+" "+s+")")
 		if t != mathInt {
-			guards = append(guards, w.typeFacts(name, t)...)
+			guards = append(guards, w.boundFacts(name, t)...)
 		}
 	}
 	body := w.ghostHyps(c, n.Body, nil, nil)
